@@ -230,7 +230,9 @@ impl<R: Reader> UnitIndex<R> {
     /// `id` may be a compilation unit ID if this index is from `.debug_cu_index`,
     /// or a type signature if this index is from `.debug_tu_index`.
     pub fn find(&self, id: u64) -> Option<u32> {
-        if self.slot_count == 0 {
+        // An ID of 0 marks an unused slot, so it can never be present; without this check
+        // the probe would "find" the first unused slot and return its row number 0.
+        if self.slot_count == 0 || id == 0 {
             return None;
         }
         let mask = u64::from(self.slot_count - 1);
